@@ -16,8 +16,11 @@ using namespace rpref;
 
 // ------------------------------------------------------------------ wires
 struct Wire { Bytes data; size_t rpos = 0; };
+static size_t g_lend = 0;   // window of the getbuffer extension the channel sources implement (0 = plain sources)
 struct WireSrc {
     Ctx *c = nullptr; Wire *w = nullptr; bool octet = false;
+    size_t lend_win = 0; std::unique_ptr<GuardedBlock> lend_blk;   // a source may lend its own receive window: then the plumbing moves whole chunks
+    static ByteBuffer lend_cb(Source *s) { WireSrc *me = (WireSrc *)s->driver; ByteBuffer b; b.data = me->lend_blk->p; b.size = me->lend_win; b.used = me->lend_win; b.offset = 0; return b; }
     Script frag;                        // k >= 1: fragmentation of chunk reads
     int64_t err_pos = -1; int err_code = 0; bool err_fired = false;
     uint64_t calls = 0;
@@ -37,7 +40,11 @@ struct WireSrc {
     }
     static ssize_t chunk_cb(void *d, void *b, size_t n) { return ((WireSrc *)d)->chunk(b, n); }
     static int octet_cb(void *d, void *b) { return (int)((WireSrc *)d)->chunk(b, 1); }
-    Source make() { Source s; if (octet) octet_source_init(&s, octet_cb, this); else chunk_source_init(&s, chunk_cb, this); return s; }
+    Source make() {
+        Source s; if (octet) octet_source_init(&s, octet_cb, this); else chunk_source_init(&s, chunk_cb, this);
+        if (lend_win) { if (!lend_blk) lend_blk.reset(new GuardedBlock(lend_win)); s.ext.getbuffer = lend_cb; }
+        return s;
+    }
 };
 struct WireSnk {
     Ctx *c = nullptr; Wire *w = nullptr; bool octet = false; uint64_t calls = 0;
@@ -134,6 +141,7 @@ struct Node {
     RPMaybeFrame mf;   // one object reused for every iteration of the serve loop, as an application would
     Node(Ctx &ctx, Wire *i, Wire *o, bool ser, int memtype, size_t block, bool slab, bool src_octet, bool snk_octet) : c(ctx), in(i), out(o), serial(ser), mt(memtype) {
         src.c = &ctx; src.w = i; src.octet = src_octet; snk.c = &ctx; snk.w = o; snk.octet = snk_octet;
+        src.lend_win = g_lend; if (g_lend) COUNT("probe.channel_source_lends_its_window");
         led.c = &ctx; led.bs = block; led.slab = slab; ba = led.make();
         be.c = &ctx; be.led = &led; be.ws = memtype == 16 ? 2 : 1;
         memset(&mf, 0, sizeof mf);
@@ -327,6 +335,7 @@ struct RegpHarness : Harness {
         const bool bigblock = (prop == "C09" || prop == "C06") && r.chance(1, 150);   // rarely a block around / above 64 KiB (sizes and counts that do not fit 16 bits)
         if (bigblock) { static const int64_t BB[] = {65535, 65536, 65537, 65552, 70000, 131072, 131080, 196700}; block = (int64_t)sizeof(RPFrame) + BB[r.below(8)]; }
         p["block"] = (long long)block;
+        if (r.chance(1, 4)) p["lend"] = (long long)(r.chance(1, 3) ? r.range(1, 6) : (r.chance(1, 2) ? r.range(7, 40) : r.range(41, 400)));   // the channel sources implement the getbuffer extension
         const size_t room = (size_t)block - sizeof(RPFrame);
         p["seq0"] = (long long)(r.chance(1, 3) ? 0xfff0 + r.below(16) : r.below(65536));
         { Json s = Json::arr(); int n = r.chance(1, 2) ? 0 : (int)r.range(1, 12); for (int i = 0; i < n; ++i) s.push((long long)r.range(1, 5)); p["frag"] = s; }
@@ -468,6 +477,7 @@ struct RegpHarness : Harness {
     // ------------------------------------------------------------ execution
     struct Cfg { bool serial; int mt; size_t block; bool slab, so, ko; uint16_t seq0; bool recycle; unsigned confhist; };
     static Cfg cfg_of(const Json &plan) {
+        { int64_t l = plan.geti("lend"); if (l < 0) l = 0; if (l > 4096) l = 4096; g_lend = (size_t)l; }
         Cfg c; c.serial = plan.geti("serial") != 0; c.mt = plan.geti("mt", 16) == 8 ? 8 : 16;
         int64_t b = plan.geti("block", 128); if (b < (int64_t)sizeof(RPFrame) + 1) b = (int64_t)sizeof(RPFrame) + 1; if (b > 400000) b = 400000; c.block = (size_t)b;
         c.slab = plan.geti("slab") != 0; c.so = plan.geti("src_octet") != 0; c.ko = plan.geti("snk_octet") != 0; c.seq0 = (uint16_t)plan.geti("seq0"); c.recycle = plan.geti("recycle") != 0; c.confhist = (unsigned)(plan.geti("confhist") & 15);
